@@ -77,6 +77,7 @@ THEOREMS = [
     "Nix.C05.shape_positions_setter",
     "Nix.C05.shape_extents_setter",
     "Nix.C05.shape_feature_data_setter",
+    "Nix.C05.shape_create_link",
     "Nix.C05.set_ticks_accepted_iff",
     "Nix.C05.freeze_ticks",
     "Nix.C05.kept_handle_cases",
@@ -980,13 +981,16 @@ class Gen5:
                 # anything but a frame: link_data_array does not look at the class of its argument, and a DataFrame
                 # happens to have a data_extent (it would be linked as if it were an array; not modelled)
                 tgt = self.pick(ents, rng.choice(["tag", "multi_tag", "group", "source", "section", "block", "data_array"]))
+            relink = ""
+            if tid is not None and ents.get(tid) is not None and ents[tid].kind == "data_array" and rng.random() < 0.25:
+                tgt, relink = ents[tid], "/same-target"      # the array already linked, with the same or another index
             if tgt is None:
                 return
             shape = self.shape_of(tgt) if tgt.kind == "data_array" else [2]
             bad = rng.random() < 0.3
             iv = self.index_vector(shape, bad)
             self.do(["dim_link", via, i, self.anypath(tgt), iv],
-                    "dim_link/%s%s" % (dkind, "/malformed" if bad else ""))
+                    "dim_link/%s%s%s" % (dkind, "/malformed" if bad else "", relink))
         elif r < 0.75:
             n = rng.randrange(1, 4)
             ts = [Fraction(rng.randrange(-8, 8), 2) for _ in range(n)]
